@@ -32,6 +32,8 @@ Scalars == {QI(2), QI(0 - 3), <<1, 2>>}
 \* ---------------------------------------------------------------------------
 \* case sets per family.  A case: [op, shapes, a (argument record), pat]
 BinCases == {C(op, <<s1, s2>>, NoArg, pt) : op \in {"add", "sub", "mul", "div"}, s1 \in Shapes, s2 \in Shapes, pt \in Pats}
+            \* the same tensor used twice by one operation: both operands are one object (pattern "AA": X[2] = X[1])
+            \cup {C(op, <<s1, s1>>, [alias |-> TRUE], "AA") : op \in {"add", "sub", "mul", "div"}, s1 \in Shapes}
 
 ScalarCases ==
   {C(op, <<s>>, [c |-> c], "A") : op \in {"addc", "raddc", "subc", "rsubc", "mulc", "rmulc", "divc", "rdivc"}, s \in Shapes, c \in Scalars}
@@ -49,6 +51,7 @@ Batches == {<<>>, <<1>>, <<2>>} \cup (IF 3 \in Sizes THEN {<<3>>, <<2, 1>>, <<1,
 MatmulCases ==
   {C("matmul", <<b1 \o <<m, t>>, b2 \o <<t2, n>>>>, NoArg, pt) :
      b1 \in Batches, b2 \in Batches, m \in MMSizes, t \in MMSizes, t2 \in MMSizes, n \in MMSizes, pt \in Pats}
+MatmulAlias == {C("matmul", <<<<n, n>>, <<n, n>>>>, [alias |-> TRUE], "AA") : n \in MMSizes}
 AddmmCases ==
   UNION {{C("addmm", <<sa, <<q[1], q[2]>>, <<q[3], q[4]>>>>, NoArg, "A") :
             sa \in {<<>>, <<1>>, <<q[4]>>, <<q[1], 1>>, <<1, q[4]>>, <<q[1], q[4]>>, <<q[1] + 1, q[4]>>, <<1, 1, q[4]>>}} :
@@ -120,9 +123,37 @@ ItemLists ==
   \cup {<<x, y, z>> : x \in SomeInts \cup {Ell}, y \in SomeSlices \cup {New}, z \in SomeInts \cup SomeSlices}
 GetitemCases == {C("getitem", <<s>>, [items |-> its], "A") : s \in ShapesFrom(1, MaxRank, Sizes \cup {3}), its \in ItemLists}
 
+\* larger ranks and sizes (rank 3..5, sizes up to 5), a sparse set of shapes with every dim argument
+BigShapes == {<<2, 3, 4>>, <<3, 1, 4, 2>>, <<2, 1, 3, 2, 2>>, <<5, 4>>}
+DimsOf(sh) == (0 - Len(sh))..(Len(sh) - 1)
+Suffixes(sh) == {SubSeq(sh, i, Len(sh)) : i \in 1..(Len(sh) + 1)} \cup {[d \in 1..Len(sh) |-> IF d % 2 = 1 THEN 1 ELSE sh[d]]}
+BigCases ==
+  UNION {
+    {C(op, <<sh, t>>, NoArg, "A") : op \in {"add", "mul", "div"}, t \in Suffixes(sh)}
+    \cup {C(op, <<t, sh>>, NoArg, "A") : op \in {"sub"}, t \in Suffixes(sh)}
+    \cup {C(op, <<sh>>, [dims |-> dims, keep |-> k], "A") : op \in {"sum", "mean"}, k \in BOOLEAN,
+            dims \in {<<>>} \cup {<<d>> : d \in DimsOf(sh)} \cup {<<a, b>> : a \in {0, 0 - 1}, b \in {1, 0 - 2}} \cup {<<0, 0 - 1, 1>>}}
+    \cup {C(op, <<sh>>, [dims |-> <<d>>, keep |-> k], "A") : op \in {"max", "min"}, d \in DimsOf(sh), k \in BOOLEAN}
+    \cup {C(op, <<sh>>, [a |-> a, b |-> b], "A") : op \in {"movedim", "transpose"}, a \in DimsOf(sh), b \in DimsOf(sh)}
+    \cup {C("flatten", <<sh>>, [sd |-> a, ed |-> b], "A") : a \in DimsOf(sh), b \in DimsOf(sh)}
+    \cup {C("unfold", <<sh>>, [dim |-> d, size |-> z, step |-> st], "A") : d \in DimsOf(sh), z \in {1, 2, 4}, st \in {1, 2, 3}}
+    \cup {C("squeeze", <<sh>>, [dims |-> dims], "A") : dims \in {<<>>} \cup {<<d>> : d \in DimsOf(sh)} \cup {<<1, 0 - 1>>}}
+    \cup {C("unsqueeze", <<sh>>, [dims |-> <<d>>], "A") : d \in (0 - Len(sh) - 1)..Len(sh)}
+    \cup {C("reshape", <<sh>>, [shape |-> t], "A") : t \in {<<0 - 1>>, <<2, 0 - 1>>, <<0 - 1, 2, 2>>, <<4, 0 - 1>>, <<3, 0 - 1>>}}
+    \cup {C("stack", <<sh, sh>>, [dim |-> d], "A") : d \in (0 - Len(sh) - 1)..Len(sh)}
+    \cup {C("concat", <<sh, sh, sh>>, [dim |-> d], "A") : d \in DimsOf(sh)}
+    \cup {C("unbind", <<sh>>, [dim |-> d, t |-> 1], "A") : d \in DimsOf(sh)}
+    \cup {C("getitem", <<sh>>, [items |-> its], "A") :
+            its \in {<<Ell, [t |-> "int", i |-> 0 - 1]>>, <<[t |-> "int", i |-> 1], Ell, [t |-> "slice", a |-> <<>>, b |-> <<>>, st |-> 0 - 1]>>,
+                     <<[t |-> "slice", a |-> <<1>>, b |-> <<>>, st |-> 1], New, [t |-> "slice", a |-> <<>>, b |-> <<>>, st |-> 2]>>,
+                     <<[t |-> "arr", ix |-> <<1, 0, 1>>], [t |-> "slice", a |-> <<>>, b |-> <<0 - 1>>, st |-> 1]>>,
+                     <<[t |-> "slice", a |-> <<>>, b |-> <<>>, st |-> 1], [t |-> "arr", ix |-> <<0, 0>>]>>}}
+    \cup {C("matmul", <<sh, t>>, NoArg, "A") : t \in {<<sh[Len(sh)], 3>>, SubSeq(sh, 1, Len(sh) - 2) \o <<sh[Len(sh)], 2>>}}
+    : sh \in BigShapes}
+
 Cases ==
-  CASE Family = "bin" -> BinCases [] Family = "scalar" -> ScalarCases [] Family = "rterm" -> RtermCases
-    [] Family = "matmul" -> MatmulCases [] Family = "addmm" -> AddmmCases
+  CASE Family = "bin" -> BinCases [] Family = "big" -> BigCases [] Family = "scalar" -> ScalarCases [] Family = "rterm" -> RtermCases
+    [] Family = "matmul" -> MatmulCases \cup MatmulAlias [] Family = "addmm" -> AddmmCases
     [] Family = "red" -> RedCases [] Family = "ext" -> ExtCases
     [] Family = "squeeze" -> SqueezeCases \cup UnsqueezeCases
     [] Family = "reshape" -> ReshapeCases \cup FlattenCases
@@ -171,7 +202,8 @@ Relevant(c) ==
 
 \* ---------------------------------------------------------------------------
 \* divisors use a pattern with few distinct denominators (sums over broadcast dims stay within 32-bit integers)
-FillOp(c) == IF c.op = "div" THEN <<Fill("A", c.shapes)[1], Fill("D", c.shapes)[2]>> ELSE Fill(c.pat, c.shapes)
+FillOp(c) == IF c.pat = "AA" THEN (LET v == Fill(IF c.op = "div" THEN "D" ELSE "A", c.shapes)[1] IN [k \in 1..Len(c.shapes) |-> v])
+             ELSE IF c.op = "div" THEN <<Fill("A", c.shapes)[1], Fill("D", c.shapes)[2]>> ELSE Fill(c.pat, c.shapes)
 Obs(c) == LET f == FormOf(c) IN ObsOf(c, f, Policy(c, f), FillOp(c), [x |-> 0])
 
 \* ---------------------------------------------------------------------------
